@@ -512,3 +512,55 @@ var _ = late(func() {
 			}
 		}})
 })
+
+// C17.barrier: StopAndWait is a barrier. Every path through it cancels the group's context (Stop / cancel under the lock) and
+// then waits for the WaitGroup; there is no early way out ("already stopped" does not mean "already finished"). Wait precedes
+// no further spawning: Stop's cancel happens before the Wait on every path.
+var _ = late(func() {
+	p := properties["C17"]
+	p.Rules = append(p.Rules, &Rule{ID: "C17.barrier", Floor: 1, Clause: "every path through StopAndWait cancels the group's context and then calls wg.Wait() (typestate over StopAndWait and the helpers it calls): an early return - e.g. when the context is already cancelled - lets StopAndWait return while spawned functions are still running",
+		Run: func(c *Ctx, r *R) {
+			fn := c.fn("xsync.Group.StopAndWait")
+			if fn == nil {
+				r.undecided("xsync.Group.StopAndWait|missing", token.NoPos, "anchor not found")
+				return
+			}
+			pkg := fn.Pkg
+			// 0 = nothing, 1 = cancelled, 2 = cancelled then waited, 3 = waited without cancelling first
+			pf := &PF{N: 4, InScope: func(f *ssa.Function) bool { return rootFn(f).Pkg == pkg && f.Blocks != nil && f != fn }}
+			pf.Instr = func(f *ssa.Function, in ssa.Instruction, q int) (StateSet, bool) {
+				call, ok := in.(*ssa.Call)
+				if !ok {
+					return 0, false
+				}
+				// cancel(): a call of a func-typed field / value of the group named by its role: context.CancelFunc
+				if !call.Call.IsInvoke() {
+					if _, isFn := call.Call.Value.(*ssa.Function); !isFn {
+						if t, ok := call.Call.Value.Type().(*types.Named); ok && t.Obj().Name() == "CancelFunc" {
+							if q == 0 {
+								return ss(1), true
+							}
+							return ss(q), true
+						}
+					}
+				}
+				if cal := call.Call.StaticCallee(); cal != nil && cal.Name() == "Wait" && cal.Signature.Recv() != nil && isNamedType(cal.Signature.Recv().Type(), "sync", "WaitGroup") {
+					if q == 1 {
+						return ss(2), true
+					}
+					if q == 0 {
+						return ss(3), true
+					}
+				}
+				return 0, false
+			}
+			k := 0
+			for _, e := range pf.Exits(fn, ss(0)) {
+				k++
+				r.ok(e.States == ss(2), "xsync.Group.StopAndWait|return#"+itoa(k), retPos(e.Ret), "a path through StopAndWait returns without having cancelled the context and then waited for the WaitGroup ("+describeStates(e.States)+"): StopAndWait would return while spawned functions are still running, or wait for goroutines that were never told to stop")
+			}
+			if k == 0 {
+				r.undecided("xsync.Group.StopAndWait|returns", fn.Pos(), "no return found")
+			}
+		}})
+})
